@@ -5,8 +5,10 @@
 // (the Linux kernel is the oracle): same byte count, bytes, offset and error
 // kind call by call; same content, size, attributes and offsets through every
 // name and every open handle after every call. State identity is taken from
-// the kernel side. A second family of systems checks directory handles
-// (ReadDir(n)/Readdirnames(n) batching).
+// the kernel side. The file a history starts from is either fresh (one
+// WriteFile) or has a history of its own (start.go: shrunk, extended, emptied
+// and rewritten, with a handle left beyond its end). A second family of
+// systems checks directory handles (ReadDir(n)/Readdirnames(n) batching).
 package main
 
 import (
@@ -30,7 +32,8 @@ import (
 
 // System names:
 //
-//	<FS>/file/<content>/s<slots>/<q|t>   content: empty | abc | abcdef; q = 12 flag sets, t = all 48
+//	<FS>/file/<content>/s<slots>/<q|t>   content: empty | abc | abcdef | the name of a start state with a history (start.go);
+//	                                     q = the quick flag sets, t = all 48
 //	<FS>/dir/k<entries>
 func factory(trace bool) func(string) bfs.System {
 	return func(name string) bfs.System {
@@ -55,6 +58,14 @@ func factory(trace bool) func(string) bfs.System {
 
 			n, _ := strconv.Atoi(strings.TrimPrefix(parts[3], "s"))
 			s := &fsys{name: name, fsName: parts[0], content: content, nslots: n, R: R, fp: R + "/f", gp: R + "/g", trace: trace}
+
+			if st := findStart(parts[2]); st != nil {
+				s.start = st.Steps
+			} else if content != "" && content != "abc" && content != "abcdef" {
+				fmt.Fprintln(os.Stderr, "c02: unknown start state", parts[2])
+				os.Exit(2)
+			}
+
 			s.slots = make([]slot, n)
 			s.ks = make([]kslot, n)
 			s.ops = buildFileOps(n, parts[4] == "t")
@@ -94,6 +105,16 @@ func jobs(tier string, depth int) []job {
 		}
 	}
 
+	// start states with a history (start.go): the full alphabet from a file that was
+	// shrunk, extended, emptied and rewritten before the history starts
+	addHist := func(group, suffix string, d, n int) {
+		for _, f := range fss {
+			for _, c := range startNames(n) {
+				js = append(js, job{system: fmt.Sprintf("%s/file/%s/%s", f, c, suffix), depth: d, group: group})
+			}
+		}
+	}
+
 	dd := 4
 	if tier == "thorough" {
 		dd = 6
@@ -108,13 +129,17 @@ func jobs(tier string, depth int) []job {
 	switch {
 	case depth > 0:
 		add("file-2slots-12flags", "s2/q", depth, false)
+		addHist("file-1slot-12flags-history-starts", "s1/q", depth, len(startStates))
 	case tier == "thorough":
 		add("file-2slots-12flags", "s2/q", 4, false)
 		add("file-3slots-48flags", "s3/t", 3, false)
+		addHist("file-2slots-12flags-history-starts", "s2/q", 3, len(startStates))
+		addHist("file-1slot-12flags-history-starts", "s1/q", 4, len(startStates))
 		// as deep as the rest of the budget allows (repeats depths 1-4 of the first group)
 		add("file-2slots-12flags-deep", "s2/q", 5, true)
 	default:
 		add("file-2slots-12flags", "s2/q", 3, false)
+		addHist("file-1slot-12flags-history-starts", "s1/q", 3, quickStarts)
 	}
 
 	return js
@@ -143,12 +168,16 @@ func runReplay(path string) {
 	sys := factory(true)(doc.Replay.System)
 	defer sys.Close()
 
+	fmt.Printf("replay of %s on system %s\n", path, doc.Replay.System)
+
+	if t := startText(doc.Replay.System); t != "" {
+		fmt.Printf("start state: %s\n", t)
+	}
+
 	if err := sys.Reset(); err != nil {
 		fmt.Fprintln(os.Stderr, "c02: reset:", err)
 		os.Exit(2)
 	}
-
-	fmt.Printf("replay of %s on system %s\n", path, doc.Replay.System)
 
 	nviol := 0
 
@@ -321,7 +350,7 @@ func main() {
 				a.hist = len(hist)
 				a.replay = map[string]any{
 					"system": system, "history": append([]string{}, hist...), "op": op, "call": d.Call, "what": d.What,
-					"expected_kernel": d.Expected, "observed_avfs": d.Observed,
+					"expected_kernel": d.Expected, "observed_avfs": d.Observed, "start_state": startText(system),
 					"note": "R = scratch directory on tmpfs; f = R/f, g = R/g, d = R/d; the same absolute paths exist in the emulated file system; re-run with a trace: ./check C02 quick -replay <this file>",
 				}
 
@@ -426,7 +455,7 @@ func main() {
 		Coverage: map[string]any{
 			"states": states, "transitions": trans, "traces_validated_against_impl": trans,
 			"evaluations": trans, "distinct_nontrivial": len(outcomes),
-			"rule":            "every history of length <= bound over a static alphabet (open with each flag set, Read, ReadAt, Write, WriteString, WriteAt, Seek, Truncate, Stat, Sync, Chmod, Chown, Chdir, Close, Name per handle slot; offsets and sizes from {-1,0,1,size-1,size,size+2} evaluated against the kernel-side size; path-level Truncate, Rename, Link, Remove, ReadFile, Stat) executed on a fresh MemFS/OrefaFS and in lock-step on *os.File in a fresh tmpfs directory at the same absolute path; breadth-first with state deduplication on the kernel-side key; transitions = calls actually executed on both sides; distinct_nontrivial = distinct (call, kernel outcome class) pairs observed",
+			"rule":            "every history of length <= bound over a static alphabet (open with each flag set, Read, ReadAt, Write, WriteString, WriteAt, Seek, Truncate, Stat, Sync, Chmod, Chown, Chdir, Close, Name per handle slot; offsets and sizes from {-1,0,1,size-1,size,size+2} evaluated against the kernel-side size; path-level Truncate, Rename, Link, Remove, ReadFile, Stat) executed on a fresh MemFS/OrefaFS and in lock-step on *os.File in a fresh tmpfs directory at the same absolute path; start states: the file made by one WriteFile (\"\", \"abc\", \"abcdef\") and, in the groups named history-starts, the file left behind by a prologue executed and compared on both sides (written long and shrunk to a non-zero size through its name / through a handle, extended by Truncate or by a write beyond the end, emptied by Truncate(0) / O_TRUNC / WriteFile and written again shorter, a handle left open beyond the end of the shrunk file; the systems list names them, start.go holds the calls) so that writes, WriteAt and Truncate beyond the end after a shrink lie within the bound; breadth-first with state deduplication on the kernel-side key; transitions = calls actually executed on both sides; distinct_nontrivial = distinct (call, kernel outcome class) pairs observed",
 			"samples":         samples,
 			"outcome_classes": oc,
 			"exhaustive":      exh, "bound": strings.Join(bound, "; "),
@@ -439,6 +468,7 @@ func main() {
 			"on a closed handle the emulation may answer with a closed-file error where package os answers an argument check first (negative offset, WriteAt on O_APPEND, zero-length ReadAt/WriteAt): the statement asks for a closed-file error",
 			"Name on a nil handle is not compared (a panic is sanctioned; (*os.File)(nil).Name() panics too)",
 			"Seek whence is taken from {0,1,2,5}: SEEK_DATA/SEEK_HOLE (3,4) have file-system specific answers on tmpfs and are not defined by the property",
+			"start states with a history are reached by a fixed prologue per system (not enumerated): 3 of the 10 prologues in the quick tier with one handle slot, all 10 in the thorough tier with one slot (one call deeper) and with two slots; a difference between the two sides during the prologue is reported as a violation of kind start-state and that system is not explored further",
 			"only R/f is opened; R/g is observed through ReadFile/Stat after every call; uid/gid are not compared (Chown is called with the root ids)",
 			"directory handles: kernel entry order is unspecified, so batch sizes, error kinds, no-duplicate, membership, type and union are compared, not order; after a Create/Remove a handle that had started reading is checked only for the emulation-internal protocol clauses (kernel answers are file-system specific there)",
 			"random long histories (second half of the quantifier) are sampling and are not run; replaced by the exhaustive bound",
